@@ -103,12 +103,40 @@ def respell(ln, rnd, consts):
     return None
 
 
+# words a comment may contain: directive names, mnemonics, label / constant syntax, quotes - a comment is never anything but a comment
+COMMENT_WORDS = ['string', 'string ', 'error', 'error ', 'include', 'include x.asm', 'include_bytes', 'include_bytes f.bin', 'addi', 'nop',
+                 'bytes 1 2 3', 'db 1', 'pack <I 5', 'align 4', 'next string byte', 'end of the string is reached', 'label:', 'L0:', 'K = 5',
+                 'x = y', '"quoted"', "'c'", "it's", '%hi(L0)', '(paren)', 'a, b, c', 'li t0 5', '#', '##', ':', '=', '\\', 'TODO', 'the',
+                 'loop', 'jump to L1']
+
+
+def comment_text(rnd):
+    return ' '.join(rnd.choice(COMMENT_WORDS) for _ in range(rnd.randrange(1, 5)))
+
+
+def literal_transfers(rnd):
+    """branches / jal whose target is written as a NUMBER (a literal pc-relative offset): the integer spellings apply to them too"""
+    out = []
+    for _ in range(rnd.randrange(0, 3)):
+        if rnd.random() < 0.7:
+            name = rnd.choice(['beq', 'bne', 'blt', 'bge', 'bltu', 'bgeu'])
+            v = rnd.choice([-4096, -2048, -256, -20, -12, -8, -4, 4, 8, 12, 16, 64, 2044, 4092, rnd.randrange(-1024, 1024) * 4])
+            a, b = rnd.randrange(32), rnd.randrange(32)
+            out.append(progs.Ln('    %s x%d, x%d, %d' % (name, a, b, v), 'instr', name, [('r', a), ('r', b), ('i', v)]))
+        else:
+            v = rnd.choice([-1048576, -4096, -20, -4, 4, 8, 2048, 1048572, rnd.randrange(-200000, 200000) * 4])
+            a = rnd.randrange(32)
+            out.append(progs.Ln('    jal x%d, %d' % (a, v), 'instr', 'jal', [('r', a), ('i', v)]))
+    return out
+
+
 def variant(lines, rnd):
     consts = set(l.name for l in lines if l.kind == 'const')
     out = []
     for ln in lines:
         if rnd.random() < 0.15:
-            out.append(rnd.choice(['', '   ', '\t', '# a comment', '    # indented comment, with: punctuation (x)']))
+            out.append(rnd.choice(['', '   ', '\t', '# a comment', '    # indented comment, with: punctuation (x)',
+                                   rnd.choice(['', '  ', '\t']) + '#' + rnd.choice(['', ' ']) + comment_text(rnd)]))
         t = respell(ln, rnd, consts)
         if t is None:
             t = ln.text.strip() if ln.kind != 'string' else None
@@ -118,7 +146,7 @@ def variant(lines, rnd):
             continue
         t = rnd.choice(['', ' ', '    ', '\t', '\t\t']) + t
         if ln.kind != 'const' and rnd.random() < 0.3:
-            t += rnd.choice(['  # trailing', ' #x', '\t# c, d (e)', ' # '])
+            t += rnd.choice(['  # trailing', ' #x', '\t# c, d (e)', ' # ', '  # ' + comment_text(rnd), ' #' + comment_text(rnd)])
         if rnd.random() < 0.2:
             t += rnd.choice([' ', '   ', '\t'])
         out.append(t)
@@ -131,6 +159,8 @@ def one_case(args):
     asm = progs.get_asm()
     rnd = common.rng('c13:%d' % idx)
     lines = progs.gen_program(rnd, size=rnd.randrange(4, 24), fillers=False)
+    for ln in literal_transfers(rnd):
+        lines.insert(rnd.randrange(len(lines) + 1), ln)
     base = progs.source(lines)
     variants = [base] + [variant(lines, rnd) for _ in range(nvar)]
     out = dict(idx=idx, base=base, problems=[], corr={}, diffs=[], status=None, nvar=len(variants))
@@ -199,7 +229,8 @@ def run(tier, replay):
             rep.sample(dict(base=r['base'][:300]))
     rep.cov['programs'] = len(results)
     rep.cov['rule'] = ('each seeded program is re-spelled {} times, every line and operand independently: separators, blank/comment lines, '
-                       'trailing comments, indentation, register as number/xN/alias/fp/hex, integers dec/hex/bin/0X, imm(reg) vs reg,imm; '
+                       'trailing comments (their text drawn from directive names, mnemonics, label/constant syntax, quotes), indentation, '
+                       'register as number/xN/alias/fp/hex, integers dec/hex/bin/0X (also as literal branch/jal offsets), imm(reg) vs reg,imm; '
                        'string bodies are never touched. bytes and ordered label table compared pairwise, both modes. non-trivial = '
                        'distinct base programs.').format(nvar)
     rep.cov['model_vs_impl_disagreements'] = len(diffs)
